@@ -355,9 +355,10 @@ CHECKS["C05"] = dict(
                 "after the acknowledged write sees it.",
     harnesses=[
         dict(name="H05-interleave", entry="backend/posix.VfInterleave", reach=["interleaved"], key_trace=['"other operation runs before'], **_FS),
+        dict(name="H05-interleave-head", entry="backend/posix.VfInterleaveHead", reach=["interleaved"], key_trace=['"other operation runs before'], **_FS),
     ],
     assumptions=["file-system model with atomic namespace steps", "schedules in which BOTH operations are split (A1 B1 A2 B2) are not explored"],
-    outside=["more than two concurrent operations", "schedules that split both operations", "bodies longer than one byte", "HEAD as the reader", "versioned buckets", "sidecar metadata store"],
+    outside=["more than two concurrent operations", "schedules that split both operations", "bodies longer than one (HEAD harness: two) bytes", "versioned buckets", "sidecar metadata store"],
 )
 
 CHECKS["C17"] = dict(
